@@ -68,24 +68,15 @@ class Check:
     # ------------------------------------------------------------------ Coq
     def coq_obligations(self, extra_props=()):
         """Build the development (no-op when built), re-compile Props/<pid>.v to capture Print Assumptions."""
-        lock = open(os.path.join(ROOT, '.buildlock'), 'w')
-        fcntl.flock(lock, fcntl.LOCK_EX)
         try:
             rc, out = sh("grep -rnE '%s' --include='*.v' ." % FORBIDDEN, cwd=COQ)
             if rc == 0:
                 self.violation('theorem:gate', 'forbidden-construct', {}, None, out[:2000], failing_input=False)
-            if not (os.path.exists(os.path.join(COQ, 'Makefile.coq')) and os.path.exists(os.path.join(ROOT, 'ocaml', 'driver'))):
-                rc, out = sh('./setup.sh', cwd=ROOT, timeout=3500)
-                self.checker_cmds.append('./setup.sh')
-                if rc != 0:
-                    self.notes.append('setup failed: ' + out[-1500:])
-            else:
-                # rebuild whatever is out of date (models, proofs, driver)
-                rc, out = sh('timeout 3000 make -f Makefile.coq -j16 2>&1 | tail -30', cwd=COQ)
-                newer = sh('find . -name "*.vo" -newer %s | head -1' % os.path.join(ROOT, 'ocaml', 'driver'), cwd=COQ)[1].strip()
-                if newer:
-                    sh('./setup.sh', cwd=ROOT, timeout=3500)
-            self.checker_cmds.append('cd coq && make -f Makefile.coq -j16')
+            props = ' '.join((self.pid,) + tuple(extra_props))
+            rc, out = sh('./setup.sh ' + props, cwd=ROOT, timeout=3500)
+            self.checker_cmds.append('./setup.sh ' + props + '  (make -f Makefile.coq Props/Cxx.vo Entry/Cxx.vo; extraction; ocamlfind ocamlopt)')
+            if rc != 0:
+                self.notes.append('setup: ' + out[-1500:])
             for pid in (self.pid,) + tuple(extra_props):
                 pf = os.path.join(COQ, 'Props', pid + '.v')
                 if not os.path.exists(pf):
@@ -113,7 +104,7 @@ class Check:
                 if rc != 0:
                     self.violation('theorem:coqchk', 'coqchk-failed', {}, None, out[-2500:], failing_input=False)
         finally:
-            fcntl.flock(lock, fcntl.LOCK_UN)
+            pass
 
     @staticmethod
     def _parse_assumptions(out):
@@ -158,6 +149,7 @@ class Check:
 
     def finish(self, level='proof', assumptions_extra=()):
         findings = json.load(open(os.path.join(ROOT, 'known_findings.json')))
+        
         known = [f for f in findings if f['property'] == self.pid and f['status'] == 'known']
         groups = {}
         for v in self.violations:
